@@ -125,6 +125,25 @@ func TestEngineCpc(t *testing.T) {
 		}
 		return false
 	}
+	// a registered contract (enabled or disabled) answers a call WITHOUT calldata with an error (revert / disabled);
+	// any other code-less address accepts it as a plain transfer.  Independent of selectors.
+	emptyCallFails := func(a common.Address, query bool) bool {
+		from := c.wallets[0].GetEthAddress()
+		if query {
+			args, _ := json.Marshal(evmtypes.TransactionArgs{From: &from, To: &a})
+			res, err := ek.EthCall(ctx, &evmtypes.EthCallRequest{Args: args, GasCap: 5_000_000})
+			return err != nil || res.VmError != ""
+		}
+		baseFee := ek.GetBaseFee(ctx).BigInt()
+		gas := hexutil.Uint64(5_000_000)
+		targs := evmtypes.TransactionArgs{From: &from, To: &a, GasPrice: (*hexutil.Big)(baseFee), Gas: &gas}
+		msg, err := targs.ToMessage(0, baseFee)
+		if err != nil {
+			return true
+		}
+		res, err := ek.ApplyMessage(ctx, msg, evmtypes.NewNoOpTracer(), false)
+		return err != nil || res.VmError != ""
+	}
 	dump := func(cand []int) string {
 		params := ck.GetParams(ctx)
 		var wl []string
@@ -149,6 +168,10 @@ func TestEngineCpc(t *testing.T) {
 					den = denomID(em.MinDenom)
 				}
 				metas = append(metas, fmt.Sprintf("%d:%d:%d:%d", id, m.CustomPrecompiledType, den, b01(m.Disabled)))
+			}
+			registered := ck.GetCustomPrecompiledContractMeta(ctx, a) != nil
+			if e1, e2 := emptyCallFails(a, false), emptyCallFails(a, true); e1 != registered || e2 != registered {
+				p.Oracle("C17-exposure-without-calldata", "address id %d registered=%v, but a call without calldata fails via ApplyMessage=%v via EthCall=%v (a registered contract must answer every call itself, any other address accepts a plain call)", id, registered, e1, e2)
 			}
 			c1, c2 := callableVia(a, false), callableVia(a, true)
 			if c1 != c2 {
